@@ -81,6 +81,31 @@ func c27(c *Ctx) {
 		}
 		c.Expect(n == 1, nil, f, "one-grpc-encoding-field", "expected exactly one grpc-encoding header field site")
 	})
+	c.Ob("decoder-named-by-encoding", "R2", "client receive (retrying and non-retrying streams): whenever a registered compressor is looked up by the response's grpc-encoding, the legacy decompressor is cleared in the same step, so the decoder handed to the receive function is the one named by grpc-encoding (the legacy decompressor survives only when its Type() equals the encoding); without compression the legacy decompressor is cleared too", 2, func() {
+		for _, d := range []struct{ typ, fn string }{{"csAttempt", "csAttempt.recvMsg"}, {"addrConnStream", "addrConnStream.RecvMsg"}} {
+			f := c.fn("grpc", d.fn)
+			fV0 := c.field("grpc", d.typ, "decompressorV0")
+			fV1 := c.field("grpc", d.typ, "decompressorV1")
+			n := 0
+			for _, st := range storesToField(f, fV1) {
+				if !CallRes(getC, 0)(st.Val) {
+					c.Expect(false, st, f, d.typ+":registered-decoder-looked-up-by-name", "the registered decompressor is not the result of a lookup by name")
+					continue
+				}
+				n++
+				call := st.Val.(*ssa.Call)
+				c.Expect(CallRes(Callee(tr, "ClientStream.RecvCompress"), 0)(call.Call.Args[0]), st, f, d.typ+":looked-up-by-the-response-encoding", "the registered decompressor is not looked up by the response's grpc-encoding")
+				cleared := false
+				for _, s0 := range storesToField(f, fV0) {
+					if ConstNil(s0.Val) && s0.Block() == st.Block() {
+						cleared = true
+					}
+				}
+				c.Expect(cleared, st, f, d.typ+":legacy-decoder-cleared-when-another-is-chosen", "a registered compressor is chosen for the response encoding while the legacy decompressor (of another or no type) stays installed and takes precedence")
+			}
+			c.Expect(n == 1, nil, f, d.typ+":one-lookup", "expected one lookup of the registered compressor for the response encoding")
+		}
+	})
 	c.Ob("compress-step", "R2", "compress(): nothing is compressed without a compressor or for an empty message; the registered compressor is used whenever set, the legacy one only otherwise; 'compressed' is returned only after a compressor ran; the frame header's first byte is that flag", 7, func() {
 		f := c.fn("grpc", "compress")
 		named, legacy := ParamV("compressor"), ParamV("cp")
